@@ -7,10 +7,10 @@ cd /repo && git status --porcelain | grep -q . && { echo "/repo dirty"; exit 2; 
 mkdir -p /tmp/reseed
 for N in $NS; do
   D=/verif/seeded/$P-$N
-  git -C /repo apply $D/patch.diff || { echo "$P-$N patch does not apply"; continue; }
+  git -C /repo apply $D/patch.diff 2>/dev/null || git -C /repo apply --3way $D/patch.diff || { echo "$P-$N patch does not apply"; continue; }
   (cd /verif && timeout 1800 ./check $P --tier quick > /tmp/reseed/$P.$N.out 2>&1); rc=$?
   v=$(grep -c '^VIOLATION' /tmp/reseed/$P.$N.out)
-  git -C /repo checkout -q -- .
+  git -C /repo restore --source=HEAD --staged --worktree .
   echo " $P:rc=$rc:violations=$v" > $D/result.txt
   if [ $rc = 1 ] && [ $v -gt 0 ]; then echo "$P-$N caught (violations=$v)"; else echo "$P-$N MISSED rc=$rc"; tail -3 /tmp/reseed/$P.$N.out | cut -c1-300; fi
 done
